@@ -65,6 +65,40 @@ Theorem C05_dsn_options_safe : forall opts cfg, apply_dsn_opts dsn_none opts = S
 Proof. exact dsn_options_safe. Qed.
 Print Assumptions C05_dsn_options_safe.
 
+(* DSN values end to end.  Source-derived: WithDSNMailReturnType / WithDSNRcptNotifyType store the very expression
+   their switch validates, and smtp.Client.Mail / Rcpt refuse a stored value that is no esmtp-value (byte test of
+   validateParamValue, proposed_fixes/C05-dsn-parameter-value.diff). *)
+Theorem C05_source_dsn_values :
+  (dsn_ret_validated_is_stored = true /\ dsn_notify_validated_is_stored = true)
+  /\ (forall b, param_bad_byte b = ((b <=? 32) || (b =? 61) || (127 <=? b))).
+Proof. exact (conj gen_dsn_validated_is_stored gen_param_bad_byte). Qed.
+Print Assumptions C05_source_dsn_values.
+
+(* For every option list the constructors accept, every mailbox and capability set: the MAIL / RCPT lines are read
+   back with exactly the client's own parameters, RET / NOTIFY being built from the stored = validated values. *)
+Theorem C05_dsn_options : forall opts cfg c local domain,
+  apply_dsn_opts dsn_none opts = Some cfg ->
+  local <> [] -> ascii_unless (c_utf8 c) local = true ->
+  domain_ok (c_utf8 c) domain = true -> no_at domain = true ->
+  match smtp_mailbox (local ++ 64 :: domain) with
+  | None => existsb is_ctl local = true
+  | Some p =>
+      (exists line, mail_line c (d_ret cfg) p = Some line /\
+         parse_path_line (c_utf8 c) line = Some (VMail, local, domain, mail_params c (d_ret cfg))) /\
+      (exists line, rcpt_line c (notify_string cfg) p = Some line /\
+         parse_path_line (c_utf8 c) line = Some (VRcpt, local, domain, rcpt_params c (notify_string cfg)))
+  end.
+Proof. exact dsn_options_lines. Qed.
+Print Assumptions C05_dsn_options.
+
+(* The raw setters of smtp.Client take ANY string: whatever was stored, a MAIL / RCPT line that is written is one
+   line, and a value that is sent (DSN advertised, value non-empty) has no blank, control character or "=". *)
+Theorem C05_raw_dsn_value_lines : forall c v addr l,
+  (mail_line c v addr = Some l \/ rcpt_line c v addr = Some l) ->
+  forallb no_crlf_byte l = true /\ (c_dsn c && nonempty v = true -> param_value_ok v = true).
+Proof. exact raw_dsn_value_lines. Qed.
+Print Assumptions C05_raw_dsn_value_lines.
+
 (* For every mailbox local@domain (local part any non-empty byte string — ASCII unless SMTPUTF8 is in
    force —, domain an RFC 5321 Domain / address-literal without "@"), every capability set and every
    accepted DSN setting: either the address is refused — only when the local part holds a control
